@@ -202,6 +202,16 @@ Theorem inst_reachable_x_wf : forall vt ops w dyn vs fs,
          (fst (build_cfg leaf ldefault l_callable w fs)) (snd (build_cfg leaf ldefault l_callable w fs)) dyn vs fs).
 Proof. intros. apply reachable_x_wf; [apply inst_validate_sound | assumption | assumption | assumption]. Qed.
 
+(* ... and histories in which a refused object is kept, worked on and offered again *)
+Theorem inst_reachable_xs_wf : forall vt ops w dyn vs fs,
+  (forall f n, inst_meets f (ldefault f n)) -> ok_fields leaf fs ->
+  xs_ok leaf inst_meets fs ops None ->
+  wf_cfg leaf inst_meets fs
+    (run_xs leaf lvalidate lto_python ldefault l_callable lflag (vrun vt) ops
+         (fst (build_cfg leaf ldefault l_callable w fs)) None (snd (build_cfg leaf ldefault l_callable w fs)) dyn vs fs).
+Proof. intros. apply reachable_xs_wf; [apply inst_validate_sound | assumption | assumption | assumption]. Qed.
+
+
 Example ex_defaults_valid : forall n, inst_meets (mk (LInt (Some 1%Z) (Some 100%Z)) false (PInt 3)) (ldefault (mk (LInt (Some 1%Z) (Some 100%Z)) false (PInt 3)) n).
 Proof. intro n. right. exists 3%Z. split; reflexivity. Qed.
 
@@ -258,3 +268,17 @@ Example ex_xobjs_ok :
 Proof.
   unfold xobjs_ok. repeat constructor; cbn; try exact I; try reflexivity.
 Qed.
+
+(* the same refused object offered a second time is refused in the same way (nothing about the first attempt sticks);
+   once the caller has given it the missing value through its own reference it is taken *)
+Definition ex_obj_dos (w : world) (last : kept leaf) (c : cfg) (x : xop leaf) :=
+  at_path_xs leaf lvalidate lto_python ldefault l_callable lflag (vrun []) [] w last [] c false [] ex_fs_obj x.
+Example reoffered_obj_rejected_again :
+  let '(w1, c1, _) := ex_obj_do ex_obj_w ex_obj_root [] (XOp (CSet (sa "items") (PList 0 []))) in
+  let '(w2, k2, c2, o2) := ex_obj_dos w1 None c1 (XObj RAppend (sa "items") false [] ex_need []) in
+  let '(w3, k3, c3, o3) := ex_obj_dos w2 k2 c2 (XAgain RAppend (sa "items") []) in
+  let '(w4, k4, c4, o4) := ex_obj_dos w3 k3 c3 (XAgain (RInsert 0) (sa "items") [([], CSet (sa "need") (PInt 4))]) in
+  let '(w5, k5, c5, o5) := ex_obj_dos w4 k4 c4 (XAgain RAppend (sa "items") []) in
+  o2 = OErr (EValidation (sa "items[0].need")) /\ o3 = o2 /\ c3 = c1 /\ o4 = OOk /\ k4 = None /\ o5 = OUnm /\ c5 = c4
+  /\ exists it, dget (sa "items") (c_data c4) = Some (VList [it]) /\ dget (sa "need") (c_data it) = Some (VLeaf (PInt 4)).
+Proof. vm_compute. repeat split; try reflexivity. eexists. split; reflexivity. Qed.
